@@ -63,6 +63,14 @@ def gen_plan(rng, index, tier):
         if sym != "full":
             # first third of a two-ring core: centre plus the two cells of ring 2 in the first third
             bp["cells"] = [[0, 0, "IC"]] + ([[1, 0, "OC"], [0, 1, "OC"]] if rings > 1 else [])
+        if rng.random() < 0.22:
+            # Cartesian cores (square ducts, Cartesian pin lattices): full (centred on an assembly or
+            # on a corner) and quarter symmetry
+            sym = rng.choice(["full", "full", "quarter reflective through center assembly", "quarter periodic", "quarter reflective"])
+            bp.update({"geom": "cartesian", "symmetry": sym})
+            bp.pop("cells", None)
+            if sym == "full" and rng.random() < 0.4:
+                bp["even"] = True
         if rng.random() < 0.3:
             bp["heights"] = [rng.choice([10.0, 25.0, 33.3]) for _ in range(4)]
         if rng.random() < 0.4:
@@ -146,6 +154,8 @@ def simplify(plan):
     if cfg.get("reactor") == "gen":
         bp = cfg["blueprint"]
         for key, simple in (("pins", False), ("plenum", False), ("plate", False), ("sfp", False), ("nfuel", 1), ("rings", 1), ("symmetry", "full"), ("geom", "hex")):
+            if bp.get("geom") == "cartesian" and key in ("geom", "symmetry"):
+                continue
             if bp.get(key) != simple and not (key == "rings" and bp.get("cells")):
                 p = copy.deepcopy(plan)
                 p["config"]["blueprint"][key] = simple
@@ -327,7 +337,7 @@ def op_convert(d, st, actor):
         ch.restorePreviousGeometry(r)
         d.changer = None
         d.probes["geometry_restored"] += 1
-    elif not r.core.isFullCore:
+    elif not r.core.isFullCore and str(r.core.geomType).startswith("hex"):
         ch = gc.ThirdCoreHexToFullCoreChanger(actor.o.cs)
         ch.convert(r)
         d.changer = ch
@@ -365,7 +375,7 @@ def judge(diffs, label, known, findings, ctx=None):
     ctx = ctx or {}
     """Raise for the first difference that is not a listed finding; count the listed ones."""
     for sn, field, a, b in diffs:
-        det = {"swaps": ctx.get("swaps", False), "stationary": ctx.get("stationary", False), "field": field_class(field), "orig": kernel.canon(a) if not isinstance(a, (list, dict)) or len(str(a)) < 60 else "...", "loaded": kernel.canon(b) if not isinstance(b, (list, dict)) or len(str(b)) < 60 else "...", "stage": label.split(":")[0]}
+        det = {"swaps": ctx.get("swaps", False), "stationary": ctx.get("stationary", False), "geom": ctx.get("geom"), "field": field_class(field), "orig": kernel.canon(a) if not isinstance(a, (list, dict)) or len(str(a)) < 60 else "...", "loaded": kernel.canon(b) if not isinstance(b, (list, dict)) or len(str(b)) < 60 else "...", "stage": label.split(":")[0]}
         res = {"oracle": "C04.roundtrip", "detail": det}
         f = driver.match_finding(findings, PROPERTY, res)
         if f is not None:
@@ -402,7 +412,7 @@ def execute(plan):
         cand = [nm for nm in order[rot:] + order[:rot] if writes[nm]["nops"] > 0] or order
         chosen = cand[: rd["loads"]]
         compared = 0
-        ctx = {"swaps": d.nswaps > 0, "stationary": bool(cfg["settings"].get("stationaryBlockFlags"))}
+        ctx = {"swaps": d.nswaps > 0, "stationary": bool(cfg["settings"].get("stationaryBlockFlags")), "geom": str(cfg.get("blueprint", {}).get("geom", "hex")) if cfg.get("reactor") == "gen" else "hex"}
         with Database(path, "r") as db:
             for nm in chosen:
                 c, n = int(nm[1:3]), int(nm[4:6])
